@@ -67,6 +67,7 @@ type Cfg struct {
 	MatchLvl     string        `json:"match_lvl,omitempty"`   // the action is applied only to events with lvl == this value
 	MatchDoIf    bool          `json:"match_do_if,omitempty"` // the condition is given as do_if instead of match_fields
 	DropAfter    bool          `json:"drop_after,omitempty"`  // a discarding action follows the multi-line action
+	LazySink     int           `json:"lazy_sink,omitempty"`   // >0: the output reads events only when that many have gathered (or 10 ms later)
 }
 
 func (c *Cfg) SimCfg() *simrt.Config { return &c.Sim }
@@ -124,6 +125,9 @@ func (h *H) Gen(rng *rand.Rand, tier, prop string) core.Cfg {
 		c.MatchDoIf = core.Chance(rng, 0.5)
 	}
 	c.DropAfter = c.Action != "k8s" && core.Chance(rng, 0.3)
+	if core.Chance(rng, 0.4) {
+		c.LazySink = core.Between(rng, 2, 4)
+	}
 	nReaders := core.Between(rng, 1, 3)
 	nSources := core.Between(rng, nReaders, nReaders+1)
 	streams := []string{"stdout", "stderr"}[:core.Between(rng, 1, 2)]
@@ -255,13 +259,49 @@ type sinkOut struct {
 	ctl   pipeline.OutputPluginController
 	outs  []outRec
 	field string
+	// lazy > 0: events are kept until that many have gathered (or the flusher's next round) and only then read
+	lazy    int
+	pending []pendItem
 }
 
 func (s *sinkOut) Start(_ pipeline.AnyConfig, p *pipeline.OutputPluginParams) { s.ctl = p.Controller }
 func (s *sinkOut) Stop()                                                      {}
 func (s *sinkOut) Out(e *pipeline.Event) {
+	if s.lazy > 0 {
+		// like a batching output: the event is looked at (encoded) only when its batch is flushed, so it has to
+		// stay intact while the processor goes on with the next lines
+		s.pending = append(s.pending, pendItem{e: e})
+		if len(s.pending) >= s.lazy {
+			s.flush()
+		}
+		return
+	}
 	s.record(e)
 	s.ctl.Commit(e)
+}
+
+// pendItem: an event waiting in the lazy sink, or the note of an event that the action behind the multi-line
+// action discarded (taken at once - the event is gone afterwards - but kept in its place in the order)
+type pendItem struct {
+	e    *pipeline.Event
+	note *outRec
+}
+
+func (s *sinkOut) flush() {
+	batch := s.pending
+	s.pending = nil
+	for _, it := range batch {
+		if it.note != nil {
+			s.outs = append(s.outs, *it.note)
+			continue
+		}
+		s.record(it.e)
+	}
+	for _, it := range batch {
+		if it.e != nil {
+			s.ctl.Commit(it.e)
+		}
+	}
 }
 
 // dropAfter is an action placed behind the multi-line action in part of the runs: it discards events that carry
@@ -276,7 +316,15 @@ func (a *dropAfter) Do(e *pipeline.Event) pipeline.ActionResult {
 		return pipeline.ActionDiscard
 	}
 	if n := e.Root.Dig("drop"); n != nil && n.AsString() == "1" {
-		a.s.record(e)
+		if a.s.lazy > 0 {
+			before := len(a.s.outs)
+			a.s.record(e)
+			note := a.s.outs[before]
+			a.s.outs = a.s.outs[:before]
+			a.s.pending = append(a.s.pending, pendItem{note: &note})
+		} else {
+			a.s.record(e)
+		}
 		return pipeline.ActionDiscard
 	}
 	return pipeline.ActionPass
@@ -347,7 +395,7 @@ func (h *H) Run(cc core.Cfg, sim *simrt.Sim) *core.Outcome {
 	if cfg.Action == "k8s" {
 		field = "log"
 	}
-	out := &sinkOut{field: field}
+	out := &sinkOut{field: field, lazy: cfg.LazySink}
 	var all []*obs
 	verdict := false
 	reason := sim.Run(func() {
@@ -417,6 +465,16 @@ func (h *H) Run(cc core.Cfg, sim *simrt.Sim) *core.Outcome {
 		p.SetOutput(&pipeline.OutputPluginInfo{PluginStaticInfo: &pipeline.PluginStaticInfo{Type: "out"}, PluginRuntimeInfo: &pipeline.PluginRuntimeInfo{Plugin: out}})
 		t0 := simrt.SimNow()
 		p.Start()
+		if cfg.LazySink > 0 {
+			simrt.Go("sink-flusher", func() {
+				for {
+					simrt.Sleep(10 * time.Millisecond)
+					if len(out.pending) > 0 {
+						out.flush()
+					}
+				}
+			})
+		}
 		var wg simrt.WaitGroup
 		for rd, lines := range cfg.Readers {
 			lines := lines
